@@ -178,6 +178,43 @@ func genC08(g *Gen) {
 		}
 		g.Case("bwfd", J{"a": bytesJ(a), "b": bytesJ(b), "n": n, "windows": windows})
 	}
+	// long strings (9..48 bytes) that are identical except for one or two single-bit differences: block-wise
+	// comparison code skips equal 8/16-byte blocks; from is placed around the differing word, aligned and not
+	for c := 0; c < g.N(500, 20000); c++ {
+		n := widths[r.Intn(4)]
+		la := 9 + r.Intn(40)
+		a := randBytes(r, la)
+		b := append([]byte{}, a...)
+		if r.Intn(6) == 0 {
+			b = b[:la-r.Intn(9)]
+		}
+		var diffs []int
+		for k := 1 + r.Intn(2); k > 0 && len(b) > 0; k-- {
+			p := r.Intn(8 * len(b))
+			b[p/8] ^= 0x80 >> uint(p%8)
+			diffs = append(diffs, p/n)
+		}
+		wa, wb := la*8/n, len(b)*8/n
+		mx := wa
+		if wb > mx {
+			mx = wb
+		}
+		var windows [][]int64
+		windows = append(windows, []int64{0, -1})
+		for _, d := range diffs {
+			for _, df := range []int{-9, -8, -7, -3, -2, -1, 0, 1, 2} {
+				from := d + df
+				if from < 0 {
+					continue
+				}
+				windows = append(windows, []int64{int64(from), -1}, []int64{int64(from), int64(mx + 1)}, []int64{int64(from), int64(d + 1 + r.Intn(70))}, []int64{int64(from), int64(d)})
+			}
+		}
+		for i := 0; i < 6; i++ {
+			windows = append(windows, []int64{int64(r.Intn(mx + 2)), int64(r.Intn(mx+4) - 1)})
+		}
+		g.Case("bwfd", J{"a": bytesJ(a), "b": bytesJ(b), "n": n, "windows": windows})
+	}
 	for c := 0; c < g.N(100, 3000); c++ {
 		var strs [][]int64
 		for i := r.Intn(6); i > 0; i-- {
@@ -443,6 +480,8 @@ func keySet(r *rand.Rand, nk int) []string {
 	if r.Intn(3) == 0 {
 		alpha = []byte{'a', 'b', 'c'}
 	}
+	utf8 := r.Intn(6) == 0 // tails of well-formed multi-byte UTF-8 runes sharing their lead bytes
+	runes := []string{"\u00e8", "\u00e9", "\u00ea", "\u00e0", "\u0100", "\u65e5", "\u65e6", "\u672c", "\U0001f600", "\U0001f601", "a"}
 	if r.Intn(8) == 0 {
 		alpha = nil // full byte alphabet
 	}
@@ -450,7 +489,9 @@ func keySet(r *rand.Rand, nk int) []string {
 		tl := r.Intn(5)
 		k := append([]byte{}, prefix...)
 		for i := 0; i < tl; i++ {
-			if alpha == nil {
+			if utf8 {
+				k = append(k, runes[r.Intn(len(runes))]...)
+			} else if alpha == nil {
 				k = append(k, byte(r.Intn(256)))
 			} else {
 				k = append(k, alpha[r.Intn(len(alpha))])
@@ -518,6 +559,37 @@ func genC16(g *Gen) {
 		qs = append(qs, []int64{0, int64(len(keys)), 1})
 		if r.Intn(3) == 0 {
 			qs = append(qs, []int64{0, int64(len(keys)), 64})
+		}
+		g.Case("cntp", J{"keys": strsJ(keys), "queries": qs})
+	}
+	// larger key sets (17..70 keys): sub-ranges starting and ending on and around multiples of 8, 16, 32
+	// (block-wise summaries of the first-difference bits), few counters
+	for c := 0; c < g.N(48, 4000); c++ {
+		keys := keySet(r, 17+r.Intn(54))
+		n := len(keys)
+		if n < 17 {
+			continue
+		}
+		var qs [][]int64
+		bnds := []int{0, 1, 7, 8, 9, 15, 16, 17, 23, 24, 31, 32, 33, 47, 48, 49, 63, 64, n - 1, n}
+		for k := 0; k < 18; k++ {
+			s0, e0 := bnds[r.Intn(len(bnds))], bnds[r.Intn(len(bnds))]
+			if r.Intn(4) == 0 {
+				s0, e0 = r.Intn(n), r.Intn(n+1)
+			}
+			if s0 > e0 {
+				s0, e0 = e0, s0
+			}
+			if e0 > n {
+				e0 = n
+			}
+			if e0-s0 < 2 {
+				continue
+			}
+			qs = append(qs, []int64{int64(s0), int64(e0), []int64{1, 2, 3}[r.Intn(3)]})
+		}
+		if len(qs) == 0 {
+			qs = append(qs, []int64{0, int64(n), 2})
 		}
 		g.Case("cntp", J{"keys": strsJ(keys), "queries": qs})
 	}
